@@ -204,9 +204,11 @@ package core
 //@ func (*JApiCore).scanProject loop 1
 //@   invariant coreScanInv(core) && core.scannersStack == old(core.scannersStack)
 
+// every registered handler is a function (the table is filled once by NewJApiCore with method values)
+//@ pred handlersOK(core *JApiCore) := forall(k, directive.Enumeration, imp(core.directiveFunctions != nil && has(core.directiveFunctions, k), core.directiveFunctions[k] != nil))
 //@ func (*JApiCore).addDirective(core, d)
 //@   property C19
-//@   requires core != nil && directive.dirOK(d)
+//@   requires core != nil && directive.dirOK(d) && handlersOK(core)
 //@   modifies anything
 //@   ensures[C19,@ban-checked] imp(old(banned(core, d.type_)), result != nil && result.File == d.keywordCoords.file && result.Index == d.keywordCoords.begin)
 
